@@ -16,6 +16,7 @@ RULE = ('random caption sets (1-3 languages, 0-7 captions, runs of identical (st
         'or a boundary offset is used (adjust).')
 ANCHORS = ['pycaption.base:CaptionSet.adjust_caption_timing',
            'pycaption.base:merge_concurrent_captions', 'pycaption.base:merge']
+THOROUGH_SCALE = 8        # random budgets of the thorough tier are multiplied by this
 REQUIRE = {'adjust_dropped_some': 5, 'adjust_dropped_all': 1, 'merge_runs': 10,
            'merge_near_runs': 5, 'merge_run_at_start': 2, 'merge_run_at_end': 2,
            'captions_without_visible_text': 50, 'captions_ending_with_break': 50,
